@@ -314,7 +314,7 @@ DEFAULT_WEIGHTS = {
     "merge": 0, "combine": 0, "split": 0, "unsat_core": 0, "pickle": 0, "pickle_expr": 0, "g_truth": 0, "new": 0,
     "add_replacement": 0, "split_recombine": 0, "merge3": 0,
     # multi-step shapes random walks rarely produce (DESIGN 9.6.1); cheap, so on everywhere with a small weight
-    "exhaust_batch": 2, "span_branch_add": 0, "late_unsat": 2, "bridge_split": 0, "split_cross": 0,
+    "exhaust_batch": 2, "span_branch_add": 0, "late_unsat": 2, "bridge_split": 0, "split_cross": 0, "branch_simplify_add": 0,
 }
 
 QUERY_KINDS = ("sat", "probe", "eval", "batch_eval", "min", "max", "solution", "is_true", "is_false")
@@ -675,6 +675,9 @@ class HistoryGen:
         elif kind == "split_cross":
             self.macro_split_cross(hi, h)
             return
+        elif kind == "branch_simplify_add":
+            self.macro_branch_simplify_add(hi, h, live)
+            return
         elif kind == "span_branch_add":
             self.macro_span_branch_add(hi, h, live)
             return
@@ -1024,6 +1027,42 @@ class HistoryGen:
                     self.emit(self.exact_op(h, {"op": "solution", "h": part, "e": ["var", other], "v": r.below(1 << self.vars[other]), "extra": []}))
                 else:
                     self.emit(self.exact_op(h, {"op": k, "h": part, "e": ["var", other], "signed": False, "extra": []}))
+
+    def macro_branch_simplify_add(self, hi, h, live):
+        """branch, then on ONE side simplify (explicitly, or implicitly through an optimisation / a multi-value eval),
+        narrow a variable, and ask the OTHER side about that variable"""
+        r = self.r
+        if h.ref.kind != "enum" or len(live) >= self.max_handles + 1 or not h.ref.M:
+            return
+        eg = self.egf(h)
+        if not eg.bvs or eg.simple:
+            return
+        x = r.choice(eg.bvs)
+        vx = ["var", x]
+        if r.chance(60):
+            self.emit({"op": "add", "h": hi, "cs": [self.gen_constraint(h)]})
+        self.emit({"op": "branch", "h": hi})
+        bi = len([z for z in self.handles if z.alive]) - 1
+        writer, reader = (bi, hi) if r.chance(60) else (hi, bi)
+        k = r.choice(["simplify", "max", "min", "eval"])
+        if k == "simplify":
+            self.emit({"op": "simplify", "h": writer})
+        elif k == "eval":
+            self.emit(self.exact_op(h, {"op": "eval", "h": writer, "e": r.choice([vx, self.qexpr(h)]), "n": r.range(2, 5), "extra": []}))
+        else:
+            self.emit(self.exact_op(h, {"op": k, "h": writer, "e": r.choice([vx, self.qexpr(h)]), "signed": False, "extra": []}))
+        c = self.narrow_constraint(self.handles[-1] if self.handles else h, vx) or ["ne", vx, ["const", r.below(1 << self.vars[x]), self.vars[x]]]
+        self.emit({"op": "add", "h": writer, "cs": [c]})
+        for _ in range(r.range(1, 3)):
+            q = r.choice(["max", "min", "eval", "solution", "sat"])
+            if q == "sat":
+                self.emit({"op": "sat", "h": reader, "extra": [["eq", vx, ["const", r.below(1 << self.vars[x]), self.vars[x]]]]})
+            elif q == "eval":
+                self.emit(self.exact_op(h, {"op": "eval", "h": reader, "e": vx, "n": (1 << self.vars[x]) + 1, "extra": []}))
+            elif q == "solution":
+                self.emit(self.exact_op(h, {"op": "solution", "h": reader, "e": vx, "v": r.below(1 << self.vars[x]), "extra": []}))
+            else:
+                self.emit(self.exact_op(h, {"op": q, "h": reader, "e": vx, "signed": False, "extra": []}))
 
     def macro_merge3(self, hi, h, live):
         """C15: a three-way merge in which two participants share state (branches of one base) and the third has an
@@ -1395,7 +1434,8 @@ PROFILES = {
         "frontends": [("SolverComposite", 1)],
         "var_shapes": COMPOSITE_SHAPES,
         "length": (3, 40),
-        "weights": {"branch": 8, "simplify": 6, "split": 2, "combine": 2, "merge": 2, "span_branch_add": 4, "late_unsat": 4},
+        "weights": {"branch": 8, "simplify": 6, "split": 2, "combine": 2, "merge": 2, "span_branch_add": 4, "late_unsat": 4,
+                    "branch_simplify_add": 4},
         "sweep_pct": 30,
     },
     "C13": {
@@ -1460,7 +1500,8 @@ PROFILES = {
     "C14": {
         "frontends": ALL_EXACT,
         "length": (5, 40),
-        "weights": {"branch": 14, "downsize": 4, "simplify": 6, "pickle": 1, "span_branch_add": 4, "late_unsat": 3, "add_replacement": 2},
+        "weights": {"branch": 14, "downsize": 4, "simplify": 6, "pickle": 1, "span_branch_add": 4, "late_unsat": 3, "add_replacement": 2,
+                    "branch_simplify_add": 5},
         "pickle_modes": ["replace"],
         "never_swarm_out": ("branch",),
         "sweep_pct": 70,
